@@ -1930,6 +1930,14 @@ def m_str_join(interp, st, base, base_node, args, kwargs, node):
         return z3.Function("str.join_obj", z3.StringSort(), I.OBJ_SORT, z3.StringSort())(z3.StringVal(base) if isinstance(base, str) else base, x)
     if isinstance(x, (list, tuple)) and all(isinstance(e, str) for e in x) and isinstance(base, str):
         return base.join(x)
+    if isinstance(x, (list, tuple)) and x and isinstance(base, str) and all(isinstance(e, str) or (is_sym(e) and e.sort() == z3.StringSort()) for e in x):
+        # a constant number of pieces, some of them symbolic strings: their concatenation with the separator in between
+        parts = []
+        for k_, e in enumerate(x):
+            if k_ and base:
+                parts.append(z3.StringVal(base))
+            parts.append(z3.StringVal(e) if isinstance(e, str) else e)
+        return parts[0] if len(parts) == 1 else z3.Concat(*parts)
     raise Outside("str.join over a symbolic sequence of strings", node)
 
 
@@ -2574,3 +2582,24 @@ def rng_permuted(interp, st, args, kwargs, node):
 
 
 LIBFUNCS.update({"np.random.default_rng": np_default_rng, "np.random.Generator.permuted": rng_permuted})
+
+
+def lib_empty_sequence_if_attr_false(interp, st, args, kwargs, node):
+    """muutils.misc.empty_sequence_if_attr_false(itr, owner, name): itr if getattr(owner, name, False) else () (trusted library contract)"""
+    I = _I()
+    if kwargs or len(args) != 3 or not isinstance(args[2], str):
+        raise Outside("empty_sequence_if_attr_false with other arguments", node)
+    itr, owner, name = args
+    if isinstance(owner, dict):
+        flag = owner.get(name, False)
+    elif isinstance(owner, Rec):
+        flag = owner.fields.get(name, False) if name in owner.fields else _M().getattr_value(interp, st, owner, name, node)
+    else:
+        raise Outside("empty_sequence_if_attr_false on an owner that is neither a record nor a dict", node)
+    t = I.truthy_value(interp, st, flag)
+    if isinstance(t, bool):
+        return itr if t else ()
+    raise Outside("empty_sequence_if_attr_false on a symbolic flag (declare the flag as two alternatives)", node)
+
+
+LIBFUNCS.update({"muutils.misc.empty_sequence_if_attr_false": lib_empty_sequence_if_attr_false})
